@@ -1005,6 +1005,25 @@ theorem empty_multi_values_refused (ds : Rat → Rat) (name : Coded) (rel : Opti
   · intro rt pos off dts h
     exact SRItemsArgsLemmas.mkTcoordA_refuses ds name rt pos off dts rel h
 
+/-- **Numbers with a fractional part where integers are required are refused** (they used to be stored as given and
+reported truncated): frame / segment numbers (scalar or sequence), waveform channel entries, TCOORD sample positions —
+over the regenerated guards (`Gen.imageFramesCheck`, `imageSegmentsCheck`, `waveformChannelsCheck`, `tcoordArgCheck`, each
+containing the call of `_assert_integers`, itself `Gen.integersCheck`) -/
+theorem fractional_numbers_refused (ds : Rat → Rat) (name : Coded) (rel : Option String) :
+    (∀ c i b n other, (∀ it, mkImageA name c i (some (.fractional b n)) other rel ≠ .ok it) ∧
+                      (∀ it, mkImageA name c i other (some (.fractional b n)) rel ≠ .ok it)) ∧
+    (∀ c i l it, mkWaveformAF name c i (some l) true rel ≠ .ok it) ∧
+    (∀ rt l off dts it, mkTcoordAF ds name rt (some l) true off dts rel ≠ .ok it) ∧
+    Gen.integersCheck true = .error .value ∧ Gen.integersCheck false = .ok true := by
+  refine ⟨?_, ?_, ?_, by decide, by decide⟩
+  · intro c i b n other
+    exact ⟨SRItemsArgsLemmas.mkImageA_empty name c i _ other rel (Or.inl trivial),
+           SRItemsArgsLemmas.mkImageA_empty name c i other _ rel (Or.inr trivial)⟩
+  · intro c i l
+    exact SRItemsArgsLemmas.mkWaveformAF_fractional name c i l rel
+  · intro rt l off dts
+    exact SRItemsArgsLemmas.mkTcoordAF_fractional ds name rt l off dts rel
+
 /-- **Waveform channels must be pairs**: an item with one, three, … entries is refused (it used to be flattened and
 re-paired differently) -/
 theorem non_pair_channels_refused (name : Coded) (c i : String) (l : List (List Int)) (rel : Option String)
@@ -1146,6 +1165,11 @@ example : (mkImageA nm "1.2" "1.2.3" (some (.seq [])) none none).toBool = false 
 example : (mkWaveformA nm "1.2" "1.2.3" (some [[1, 2, 3]]) none).toBool = false := by decide +kernel
 example : (mkTcoordA id nm "POINT" (some []) (some [5/2]) none none).toBool = false := by decide +kernel
 example : (mkNumA id nm 5 .npInt64 nm none none).toBool = false := by decide +kernel
+/-- a frame number 1.5, the channel pair (1.5, 2), the sample position 5.7: refused; 3.0 is the whole number 3 -/
+example : (mkImageA nm "1.2" "1.2.3" (some (.fractional false 1)) none none).toBool = false := by decide +kernel
+example : (mkWaveformAF nm "1.2" "1.2.3" (some [[1, 2]]) true none).toBool = false := by decide +kernel
+example : (mkTcoordAF id nm "POINT" (some [5]) true none none none).toBool = false := by decide +kernel
+example : (mkImageA nm "1.2" "1.2.3" (some (.scalar 3)) none none).toBool = true := by decide +kernel
 /-- the 15 × 15 matrix on a concrete item: a text item parses as TextContentItem and is refused by CodeContentItem -/
 example (it : Item) (h : mkText nm "abc" (some "CONTAINS") = .ok it) :
     parseAs .text (serialise it) = .ok it ∧ parseAs .code (serialise it) = .error .value := by
